@@ -96,6 +96,8 @@ def run_symbolic(h, repo_root):
         try:
             h.fn(view)
         except Exception as ex:   # exception of the program under verification that the harness did not expect
+            from .interp import reraise_unsupported
+            reraise_unsupported(ex)
             if os.environ.get("VCHECK_DEBUG"):
                 traceback.print_exc()
             path.prove(h.ident + ".noexc", False, detail="unexpected %s: %s" % (type(ex).__name__, str(ex)[:200]))
